@@ -13,10 +13,11 @@ packet, mixed), recursively for nested packets, in the generic and the generated
 """
 from .. import common, driver, harness, model, monitors, render
 from ..common import rng_for, b2j
+from .c12 import mutate_tree
 
 LEVEL = "exploration"
 SHARDS = {"quick": 1, "thorough": 16}
-REQUIRED = ("position_sweep_trees", "repacks_after_assignment", "packs_compared_with_reference_encoding", "reparse_compared", "assert_consistency_true", "insert_traces_compared",
+REQUIRED = ("repacks_after_failed_pack_of_another_packet", "position_sweep_trees", "repacks_after_assignment", "packs_compared_with_reference_encoding", "reparse_compared", "assert_consistency_true", "insert_traces_compared",
             "built_by_kwargs", "built_by_attrs", "built_by_mixed", "built_by_inplace", "nested_trees", "boundary_int_values", "empty_lists", "absent_optionals",
             "f2_probe_runs")
 MIN_NONTRIVIAL = 150
@@ -185,6 +186,23 @@ def judge_tree(run, bench, pv, rng, mon):
                 run.violation("assert_consistency() returned %r" % (ok,), witness, None)
                 continue
             run.count("assert_consistency_true")
+            # a failing pack of ANOTHER packet of the class (one invalid leaf) must leave no trace: this packet
+            # still serializes to the same bytes afterwards
+            for desc, badtree in mutate_tree(fam, pv, rng):
+                try:
+                    other = monitors.build_packet(bench.loaded, v, badtree, "kwargs")
+                except Exception:
+                    break
+                fr = harness.lib_pack(other)
+                if fr.status == "ok":
+                    break
+                again = harness.lib_pack(pkt)
+                run.count("repacks_after_failed_pack_of_another_packet")
+                if again.status != "ok" or again.pkt != want:
+                    run.violation("after a failing pack() of another packet of the class this packet no longer serializes to the encoding of its values",
+                                  dict(witness, failing_packet_mutation=desc, packed=b2j(again.pkt) if again.status == "ok" else str(again.err)[:200],
+                                       reference=b2j(want)), None)
+                break
             # attribute assignment on the packet that has just been packed: a second serialization must be the
             # encoding of the *new* values (nothing of the first one may linger)
             for path, f, newv in repack_edits(fam, pv, rng):
